@@ -12,5 +12,5 @@ python3 tools/gen.py work/consts.json
 python3 tools/shapes.py /repo/src
 python3 tools/rs2lean.py /repo/src
 python3 tools/dep2lean.py harness/Cargo.lock
-(cd lean && lake build SynthVerif SynthVerif.AuditTool driver SynthVerif.Tie.Adsr SynthVerif.Tie.LfoRun SynthVerif.Tie.QuantRun SynthVerif.Tie.GlideRun SynthVerif.Tie.RibbonRun SynthVerif.Tie.MidiRun SynthVerif.Tie.DepMidi SynthVerif.Tie.DepBiquad SynthVerif.Tie.Transfer SynthVerif.Tie.TransferAdsr SynthVerif.Tie.TransferLfo SynthVerif.Tie.TransferQuant SynthVerif.Tie.TransferGlide SynthVerif.Tie.TransferRibbon SynthVerif.Tie.TransferMidi)
+(cd lean && lake build SynthVerif SynthVerif.AuditTool driver SynthVerif.Tie.Adsr SynthVerif.Tie.LfoRun SynthVerif.Tie.QuantRun SynthVerif.Tie.GlideRun SynthVerif.Tie.RibbonRun SynthVerif.Tie.MidiRun SynthVerif.Tie.DepMidi SynthVerif.Tie.DepMidiTypes SynthVerif.Tie.DepBiquad SynthVerif.Tie.Transfer SynthVerif.Tie.TransferAdsr SynthVerif.Tie.TransferLfo SynthVerif.Tie.TransferQuant SynthVerif.Tie.TransferGlide SynthVerif.Tie.TransferRibbon SynthVerif.Tie.TransferMidi)
 echo "setup ok"
